@@ -59,3 +59,20 @@ def parse_and_compile(text, dialect="en", uri="u.feature"):
     doc = dict(r[1])
     doc["uri"] = uri
     return ("ok", doc, Compiler(g).compile(doc))
+
+
+def language_table_problem():
+    """None, or a description of how the language table the package works with differs from the repository's master table"""
+    import json
+    from gherkin.dialect import DIALECTS as live
+    from .refs import MASTER_LANGUAGES
+    with open(MASTER_LANGUAGES, encoding="utf8") as f:
+        master = json.load(f)
+    if live == master:
+        return None
+    for d in master:
+        if live.get(d) != master[d]:
+            for c in master[d]:
+                if live.get(d, {}).get(c) != master[d][c]:
+                    return "dialect %s, %s keywords are now %r (table says %r)" % (d, c, live.get(d, {}).get(c), master[d][c])
+    return "language table changed"
